@@ -3,6 +3,7 @@ From stdpp Require Import gmap.
 From Coq Require Import Strings.String List ZArith NArith.
 From RV Require Import Irc.Str Irc.State Irc.Cmds Irc.Apply.
 From RV Require Import IrcProofs.Inv IrcProofs.InvPrims IrcProofs.Top IrcProofs.Outputs IrcProofs.Misc.
+From RV Require Import IrcProofs.Recipients2 IrcProofs.Recipients3.
 Local Open Scope string_scope.
 
 Theorem C17_nosuch_sound : forall sv id,
@@ -36,3 +37,20 @@ Theorem C17_end_frees : forall sv k s,
   forall lc c, sv_channels sv' !! lc = Some c -> c_nicks c !! nick_to_lower (s_nick s) = None.
 Proof. exact delete_frees. Qed.
 Print Assumptions C17_end_frees.
+
+(* one step: whoever receives anything exists before the step or is listed as a services link *)
+Theorem C17_recipients_exist : forall e sv en sv' out,
+  SInv sv -> apply_entry e sv en = OOk sv' out ->
+  forall o id, In o out -> In id (o_rcpt o) -> has_id sv id \/ In id (sv_serverSessions sv).
+Proof. exact recipients_exist. Qed.
+Print Assumptions C17_recipients_exist.
+
+(* histories: after a session has ended it receives nothing further (until a CreateSession with the same id) *)
+Theorem C17_ended_receives_nothing : forall e net id es0 es1 en es2 sv svj sv' out,
+  wf_history e (init_server net) (es0 ++ es1 ++ en :: es2) ->
+  run e (init_server net) es0 = Some sv ->
+  ~ has_id sv id -> ~ In id (sv_serverSessions sv) -> Forall (fun en => ~ creates id en) es1 ->
+  run e sv es1 = Some svj -> apply_entry e svj en = OOk sv' out ->
+  forall o, In o out -> ~ In id (o_rcpt o).
+Proof. exact ended_session_silent_from_init. Qed.
+Print Assumptions C17_ended_receives_nothing.
